@@ -127,6 +127,13 @@ def run_case(case):
     r.metric('dense_rel_err_' + case['dtype'], err / max(g * core.maxabs(x), 1e-300))
     if not okc:
         r.fail('dense', 'DTCWT of a dense input differs from the reference: ' + core.first_mismatch(got, want, tol))
+    # the same call while autograd is recording must give the same numbers
+    ok, out3 = lib(fwd, torch.tensor(x, dtype=tdt).requires_grad_(True))
+    if not ok:
+        return r.fail(out3.bucket, 'forward raised when the input requires grad: %s' % out3)
+    got3 = dtu.lib_flat(*out3)
+    if got3.shape != got.shape or not core.close(got3, got, (4 * core.EPS32 if f32 else 1e-13) * max(g * core.maxabs(x), 1e-300))[0]:
+        r.fail('depends_on_autograd_recording', 'coefficients differ between a plain call and a call whose input requires grad')
     return r
 
 
